@@ -118,8 +118,9 @@ class Registry:
         self.shared_fields = set()   # container-typed fields exempt from the ownership discipline
 
     def klass(self, name, qualname=None, **kw):
-        fields = {k: (self.parse(v) if isinstance(v, str) and "$" not in v else v) for k, v in (kw.pop("fields", None) or {}).items()}
-        ghost = {k: (self.parse(v) if isinstance(v, str) and "$" not in v else v) for k, v in (kw.pop("ghost", None) or {}).items()}
+        # field types stay strings until first use (forward references between classes are allowed)
+        fields = dict(kw.pop("fields", None) or {})
+        ghost = dict(kw.pop("ghost", None) or {})
         kd = KlassDecl(name, qualname, fields=fields, ghost=ghost, **kw)
         kd.cid = self._next_cid
         self._next_cid += 1
